@@ -2,12 +2,16 @@
   C10 — The order of the objectives does not matter.
 
   PROPERTY THEOREMS ONLY (statements fixed; helper lemmas in TjdLemmas/EquivLemmas.lean).
-  `permV p` reorders rows / vectors by the index list `p`.  MGDA and Krum (argmin / top-k tie breaking by
-  index) and CAGrad (conic solver) are covered by the check only (property excludes exact ties).
+  `permV p` reorders rows / vectors by the index list `p`.  Krum (top-k tie breaking by index) and CAGrad (conic
+  solver) are covered by the check only (property excludes exact ties).  MGDA: its Frank–Wolfe ITERATES depend on the
+  row order (argmin tie breaking, path), but its TARGET — the minimum-norm point of the hull — does not: it is unique
+  as a vector and invariant under row permutations (`minnorm_point_unique`, `minnorm_point_row_perm`), and the iterates
+  approach it at the proved rate, so two runs on permuted inputs differ by at most `mgda_perm_defect`.
 -/
 import Mathlib.Algebra.Order.Field.Basic
 import TjdModel.Agg.Spec2
 import TjdLemmas.EquivLemmas
+import TjdLemmas.MinNormUnique
 import TjdProps.C03
 import TjdProps.C16
 namespace Tjd.Props.C10
@@ -66,5 +70,41 @@ theorem graddrop_row_perm [Inhabited α] (m n : Nat) (J : Mat α) (hJ : MatWF J 
     (hl : leak.length = m) (p : List Nat) (hp : p.Perm (List.range m)) :
     graddrop (permV p J) (permV p leak) U n = graddrop J leak U n := by
   exact Eqv.graddrop_row_perm' m n J hJ leak U hl p hp
+
+/-! ### MGDA: the target is order-independent -/
+
+/-- the minimum-norm point of the hull is unique AS A VECTOR (the weights need not be): two certified weight vectors
+    give the same combination -/
+theorem minnorm_point_unique (J : Mat α) (m n : Nat) (hJ : MatWF J m n) (a b : Vec α)
+    (ha : minNormCheck (gram J) a = true) (hb : minNormCheck (gram J) b = true) :
+    combine n J a = combine n J b := by
+  exact minnorm_unique_mnu J m n hJ a b ha hb
+
+/-- … and it does not depend on the order of the rows -/
+theorem minnorm_point_row_perm [Inhabited α] (J : Mat α) (m n : Nat) (hJ : MatWF J m n) (p : List Nat)
+    (hp : p.Perm (List.range m)) (a a' : Vec α) (h : minNormCheck (gram J) a = true)
+    (h' : minNormCheck (gram (permV p J)) a' = true) :
+    combine n (permV p J) a' = combine n J a := by
+  exact minnorm_perm_mnu J m n hJ p hp a a' h h'
+
+/-- any convex combination is at least as far from the origin as its distance to the target allows:
+    `|Jᵀa − g*|² ≤ |Jᵀa|² − |g*|²` (so the sub-optimality bounds the distance to the target) -/
+theorem distance_to_target_le_gap (J : Mat α) (m n : Nat) (hJ : MatWF J m n) (a astar : Vec α)
+    (ha : InSimplex a m) (hstar : minNormCheck (gram J) astar = true) :
+    dot (vsub (combine n J a) (combine n J astar)) (vsub (combine n J a) (combine n J astar)) ≤
+      qf (gram J) a - qf (gram J) astar := by
+  exact dist_le_gap_mnu J m n hJ a astar ha hstar
+
+/-- hence C10 for MGDA with `epsilon = 0`, quantitatively: the results of `K ≥ 1` Frank–Wolfe iterations on `J` and on the
+    row-permuted `J` differ by at most `|x − x'|² ≤ 32 s² / (K + 2)` (`s²` bounds both Gramians), whatever the tie
+    breaking and the path of the two runs -/
+theorem mgda_perm_defect [Inhabited α] (J : Mat α) (m n : Nat) (hm : 0 < m) (hJ : MatWF J m n) (p : List Nat)
+    (hp : p.Perm (List.range m)) (s2 : α)
+    (hs : ∀ v : Vec α, v.length = m → qf (gram J) v ≤ s2 * dot v v)
+    (hs' : ∀ v : Vec α, v.length = m → qf (gram (permV p J)) v ≤ s2 * dot v v) (K : Nat) (hK : 1 ≤ K) :
+    let x := combine n J (mgdaWeights (gram J) m (1 / (m : α)) 0 K).1
+    let x' := combine n (permV p J) (mgdaWeights (gram (permV p J)) m (1 / (m : α)) 0 K).1
+    dot (vsub x x') (vsub x x') ≤ 32 * s2 / ((K : α) + 2) := by
+  exact mgda_perm_defect_mnu J m n hm hJ p hp s2 hs hs' K hK
 
 end Tjd.Props.C10
